@@ -8,6 +8,7 @@ import (
 	"strings"
 
 	gmsl "github.com/matrix-org/gomatrixserverlib"
+	"github.com/matrix-org/gomatrixserverlib/fclient"
 	"github.com/matrix-org/gomatrixserverlib/spec"
 
 	"verifharness/hx"
@@ -43,6 +44,7 @@ func replayOne(i int, raw json.RawMessage, seed int64) hx.Result {
 
 func (w *world) fail(aspect string, want, got interface{}, format string, args ...interface{}) hx.Result {
 	r := w.r
+	aspect = w.tag + aspect
 	key := fmt.Sprintf("C14/%s/%s/%s", r.Kind, aspect, r.faultKey())
 	if strings.HasPrefix(aspect, "duplicate-input/") || strings.HasPrefix(aspect, "judged-by-cited-auth-events/") {
 		key = fmt.Sprintf("C14/%s/%s", r.Kind, aspect) // the origin is known: the other deviations of the scenario are not part of it
@@ -50,6 +52,28 @@ func (w *world) fail(aspect string, want, got interface{}, format string, args .
 	return hx.Result{OK: false, Key: key, Want: want, Got: got,
 		What: fmt.Sprintf("%s (room version %s): ", r.Kind, r.Ver) + fmt.Sprintf(format, args...) + "; room: " + w.describe() +
 			"; concrete shapes: " + strings.Join(w.variants, ",")}
+}
+
+// scriptedProvider makes the event provider of one operation.  For a quarter of the records the same provider object
+// first serves a throw-away run of the operation in which every ID fails the first time it is asked for (state
+// carried from one operation to the next must not exist); for a fifth it hands back more events than asked for.
+func (w *world) scriptedProvider(run func(p *provider)) *provider {
+	p := newProvider(w)
+	if w.rng.Intn(5) == 0 {
+		p.generous = true
+		w.variants = append(w.variants, "provider=generous")
+		w.tag = "generous-provider/"
+	}
+	if w.rng.Intn(6) == 0 {
+		p.priming = true
+		func() {
+			defer func() { _ = recover() }() // a panic shows again in the run that counts
+			run(p)
+		}()
+		p.endPriming()
+		w.variants = append(w.variants, "provider=failed-in-an-earlier-operation")
+	}
+	return p
 }
 
 // checkAsked compares the provider call log (as a set of event IDs) with the specification's bounds.
@@ -70,6 +94,9 @@ func (w *world) checkAsked(p *provider) *hx.Result {
 		}
 	}
 	got := setOf(asked)
+	if p.generous {
+		return nil // events that came unasked need not be asked for
+	}
 	for _, a := range w.r.AskMin {
 		if !got[a] {
 			r := w.fail("provider-not-asked", sortedCopy(w.r.AskMin), asked,
@@ -80,14 +107,32 @@ func (w *world) checkAsked(p *provider) *hx.Result {
 	return nil
 }
 
+// shaped hands the response to the library in one of the shapes callers have it in: the plain lists, or the
+// federation client's RespState / RespSendJoin (the latter with the partial-state fields, which these checks do not read).
+func (w *world) shaped(resp *stateResponse, sendJoin bool) gmsl.StateResponse {
+	if w.shape == 0 {
+		w.shape = 1 + w.rng.Intn(3)
+	}
+	switch {
+	case w.shape == 2 && sendJoin:
+		return &fclient.RespSendJoin{StateEvents: cloneJSONs(resp.state), AuthEvents: cloneJSONs(resp.auth), Origin: "hs2",
+			MembersOmitted: w.rng.Intn(2) == 0, ServersInRoom: []string{"hs1", "hs2"}}
+	case w.shape == 2 || w.shape == 3:
+		return &fclient.RespState{StateEvents: cloneJSONs(resp.state), AuthEvents: cloneJSONs(resp.auth)}
+	}
+	return &stateResponse{auth: cloneJSONs(resp.auth), state: cloneJSONs(resp.state)}
+}
+
 // ------------------------------------------------------------------------------------------------ state
 
 func replayState(w *world) hx.Result {
 	r := w.r
 	ctx := context.Background()
 	resp := w.response()
-	prov := newProvider(w)
-	auth, state, err := gmsl.CheckStateResponse(ctx, resp, w.ver, newKeyRing(), prov.ProvideEvents, identityQuerier)
+	prov := w.scriptedProvider(func(p *provider) {
+		_, _, _ = gmsl.CheckStateResponse(ctx, w.shaped(resp, false), w.ver, newKeyRing(), p.ProvideEvents, identityQuerier)
+	})
+	auth, state, err := gmsl.CheckStateResponse(ctx, w.shaped(resp, false), w.ver, newKeyRing(), prov.ProvideEvents, identityQuerier)
 	if (err != nil) != r.Fail {
 		if r.Fail {
 			return w.fail("whole-response-accepted", "error", "no error",
@@ -194,8 +239,10 @@ func replaySendJoin(w *world) hx.Result {
 	r := w.r
 	ctx := context.Background()
 	resp := w.response()
-	prov := newProvider(w)
-	out, err := gmsl.CheckSendJoinResponse(ctx, w.ver, resp, newKeyRing(), w.pdu[r.J], prov.ProvideEvents, identityQuerier)
+	prov := w.scriptedProvider(func(p *provider) {
+		_, _ = gmsl.CheckSendJoinResponse(ctx, w.ver, w.shaped(resp, true), newKeyRing(), w.pdu[r.J], p.ProvideEvents, identityQuerier)
+	})
+	out, err := gmsl.CheckSendJoinResponse(ctx, w.ver, w.shaped(resp, true), newKeyRing(), w.pdu[r.J], prov.ProvideEvents, identityQuerier)
 	if (err == nil) != r.OK {
 		if r.OK {
 			return w.fail("refused", "accepted", fmt.Sprint(err), "CheckSendJoinResponse refused a response the specification accepts: %v", err)
@@ -230,7 +277,9 @@ func replaySendJoin(w *world) hx.Result {
 
 func replayChain(w *world) hx.Result {
 	r := w.r
-	prov := newProvider(w)
+	prov := w.scriptedProvider(func(p *provider) {
+		_ = gmsl.VerifyEventAuthChain(context.Background(), w.pdu[r.E], p.ProvideEvents, identityQuerier)
+	})
 	err := gmsl.VerifyEventAuthChain(context.Background(), w.pdu[r.E], prov.ProvideEvents, identityQuerier)
 	if (err == nil) != r.OK {
 		if r.OK {
@@ -268,7 +317,20 @@ func (w *world) authVsState(e int, S []int) string {
 
 func replayAtState(w *world) hx.Result {
 	r := w.r
-	sp := &stateProvider{w: w, stateOf: func(string) []int { return r.S }, failIDs: r.PM == "ids_error", failState: r.PM == "state_error"}
+	var sp gmsl.StateProvider = &stateProvider{w: w, stateOf: func(string) []int { return r.S }, failIDs: r.PM == "ids_error", failState: r.PM == "state_error"}
+	if r.PM == "ok" && w.rng.Intn(3) == 0 {
+		// the library's own federation-backed state provider over a scripted remote server
+		sp = &gmsl.FederatedStateProvider{FedClient: &fedStateClient{w: w, stateOf: func(string) []int { return r.S }}, Origin: "hs1", Server: "hs2"}
+		w.variants = append(w.variants, "stateprovider=federated")
+	}
+	// a cancelled context may make the call fail, it never makes it accept what the state does not allow
+	cctx, cancel := context.WithCancel(context.Background())
+	cancel()
+	if cerr := gmsl.VerifyAuthRulesAtState(cctx, sp, w.pdu[r.E], r.AV, identityQuerier); cerr == nil && !r.OK {
+		return hx.Result{OK: false, Key: "C14/atstate/accepted-with-cancelled-context/" + r.ev(r.E).Type, Want: false, Got: true,
+			What: fmt.Sprintf("atstate (room version %s): with a cancelled context VerifyAuthRulesAtState accepted event %d although the state %v reported before it does not allow it; room: %s",
+				r.Ver, r.E, sortedCopy(r.S), w.describe())}
+	}
 	err := gmsl.VerifyAuthRulesAtState(context.Background(), sp, w.pdu[r.E], r.AV, identityQuerier)
 	e := r.ev(r.E)
 	t := e.Type
@@ -327,9 +389,10 @@ func replayLoad(w *world) hx.Result {
 	var pdus []spec.RawJSON
 	wantInvalid := 0
 	wantCount := make([]int, len(r.Events)) // results expected per event: one per input
+	sigCopies := 0                          // inputs that are the forged copy of an event listed twice
 	for _, i := range order {
 		n := 1
-		if r.ev(i).F == "dup" {
+		if f := r.ev(i).F; f == "dup" || f == "sigcopy" {
 			n = 2 // the input list carries this event twice
 		}
 		for k := 0; k < n; k++ {
@@ -339,10 +402,15 @@ func replayLoad(w *world) hx.Result {
 			}
 			raws = append(raws, nil)
 			copy(raws[pos+1:], raws[pos:])
-			raws[pos] = append(json.RawMessage{}, w.wire[i]...)
+			bytesOf := w.respell(w.wire[i], r.ev(i).F != "malformed")
+			if k > 0 && r.ev(i).F == "sigcopy" {
+				bytesOf = w.forged[i] // same event ID, destroyed signature
+				sigCopies++
+			}
+			raws[pos] = append(json.RawMessage{}, bytesOf...)
 			pdus = append(pdus, nil)
 			copy(pdus[pos+1:], pdus[pos:])
-			pdus[pos] = append(spec.RawJSON{}, w.wire[i]...)
+			pdus[pos] = append(spec.RawJSON{}, bytesOf...)
 			if r.Cls[i-1] == "invalid" {
 				wantInvalid++
 			} else {
@@ -351,7 +419,7 @@ func replayLoad(w *world) hx.Result {
 		}
 	}
 	dupTag := ""
-	if strings.Contains(r.faultKey(), "dup:") {
+	if strings.Contains(r.faultKey(), "dup:") || strings.Contains(r.faultKey(), "sigcopy:") {
 		dupTag = "duplicate-input/"
 	}
 	stateOf := func(id string) []int {
@@ -363,6 +431,15 @@ func replayLoad(w *world) hx.Result {
 	prov := newProvider(w)
 	sp := &stateProvider{w: w, stateOf: stateOf}
 	loader := gmsl.NewEventsLoader(w.ver, newKeyRing(), sp, prov.ProvideEvents, false)
+	// no input: no result, no error
+	if none, nerr := loader.LoadAndVerify(ctx, nil, gmsl.TopologicalOrderByPrevEvents, identityQuerier); nerr != nil || len(none) != 0 {
+		return w.fail("empty-input", 0, len(none), "LoadAndVerify of no input returned %d results, error %v", len(none), nerr)
+	}
+	if w.rng.Intn(4) == 0 {
+		// the same loader object has already loaded (part of) these inputs in another order
+		_, _ = loader.LoadAndVerify(ctx, raws[len(raws)/2:], gmsl.TopologicalOrderByAuthEvents, identityQuerier)
+		w.variants = append(w.variants, "loader=reused")
+	}
 	results, err := loader.LoadAndVerify(ctx, raws, gmsl.TopologicalOrderByPrevEvents, identityQuerier)
 	if err != nil {
 		return w.fail("error", nil, fmt.Sprint(err), "LoadAndVerify failed as a whole: %v", err)
@@ -371,6 +448,7 @@ func replayLoad(w *world) hx.Result {
 		return w.fail("result-count", len(raws), len(results), "LoadAndVerify returned %d results for %d inputs", len(results), len(raws))
 	}
 	got := make([]string, len(r.Events))
+	gotCopies := make([][]string, len(r.Events))
 	gotCount := make([]int, len(r.Events))
 	gotInvalid := 0
 	for _, res := range results {
@@ -396,6 +474,16 @@ func replayLoad(w *world) hx.Result {
 		if !ok {
 			return w.fail("foreign-event", nil, res.Event.EventID(), "LoadAndVerify returned a result for %s, which is no input", res.Event.EventID())
 		}
+		if r.ev(i).F == "sigcopy" {
+			// two copies of one event: the genuine one is classified as the event is, the forged one fails the
+			// signature check
+			gotCopies[i-1] = append(gotCopies[i-1], c)
+			if c != "sig" {
+				got[i-1] = c
+			}
+			gotCount[i-1]++
+			continue
+		}
 		if got[i-1] != "" && got[i-1] != c {
 			return w.fail(dupTag+"event-two-classes", nil, i, "LoadAndVerify returned results of class %q and %q for the same event %d", got[i-1], c, i)
 		}
@@ -408,6 +496,17 @@ func replayLoad(w *world) hx.Result {
 		}
 	}
 	for i := range got {
+		if r.ev(i+1).F == "sigcopy" {
+			want := []string{r.Cls[i], "sig"}
+			sort.Strings(want)
+			sort.Strings(gotCopies[i])
+			if strings.Join(want, ",") != strings.Join(gotCopies[i], ",") {
+				return w.fail(dupTag+"forged-copy-classes", want, gotCopies[i],
+					"input %d is listed twice, once genuine and once with a destroyed signature: LoadAndVerify classified the two inputs as %v, the specification says %v (each input by the first check it fails)",
+					i+1, gotCopies[i], want)
+			}
+			got[i] = r.Cls[i]
+		}
 		if got[i] == "" {
 			got[i] = "invalid"
 		}
@@ -434,6 +533,10 @@ func replayLoad(w *world) hx.Result {
 	}
 	// RequestBackfill on the same inputs: everything that passed is returned, nothing that failed an auth check
 	// or is no valid event is returned (events failing only the signature check are passed on deliberately).
+	// (verifies everything once more: done for half of the records)
+	if w.rng.Intn(2) == 0 {
+		return w.loadOK()
+	}
 	prov2 := newProvider(w)
 	br := &backfillRequester{stateProvider: &stateProvider{w: w, stateOf: stateOf}, prov: prov2, pdus: pdus}
 	back, berr := gmsl.RequestBackfill(ctx, "hs1", br, newKeyRing(), w.room, w.ver, []string{w.ids[len(r.Events)]}, 100, identityQuerier)
@@ -453,12 +556,18 @@ func replayLoad(w *world) hx.Result {
 		switch {
 		case c == "ok" && !returned[i+1]:
 			return w.fail("backfill/good-event-lost", r.Cls, nil, "RequestBackfill did not return input %d, which passes every check", i+1)
-		case (c == "chain" || c == "rules" || c == "invalid") && returned[i+1]:
+		case (c == "chain" || c == "rules" || c == "invalid") && returned[i+1] && r.ev(i+1).F != "sigcopy":
 			return w.fail("backfill/bad-event-returned", r.Cls, nil, "RequestBackfill returned input %d, whose class is %q", i+1, c)
 		case c == "sig" && returned[i+1]:
 			sigPassed++
 		}
 	}
+	_ = sigPassed
+	return w.loadOK()
+}
+
+func (w *world) loadOK() hx.Result {
+	r := w.r
 	cnt := map[string]int{}
 	for _, c := range r.Cls {
 		cnt[c]++
